@@ -198,7 +198,7 @@ def o152(ctx):
         it = Interp(ctx.prog, assume=assume_map({"isinstance(input_data, str)": False,
                                                  "isinstance(input_data, list) or isinstance(input_data, np.ndarray)": True,
                                                  "len(indices) == 0": False, "numbered_from_1": flag}))
-        arr = Unk(sym("indices_in"))
+        arr = typed(Unk(sym("indices_in")), "ndarray")
         r = it.run(q2, [arr], {"numbered_from_1": K(flag)})
         want = mk("sub", sym("indices_in"), const(1)) if flag else sym("indices_in")
         v = tm.equivalent(to_term(r.ret), want, seed_tag=q2 + str(flag))
